@@ -7,6 +7,16 @@
 impl Poll {
     /// monotone history witness (DESIGN 2.12): poll(timeout) has been called on this Poll with this timeout
     pub uninterp spec fn w_polled(&self, timeout: Option<Duration>) -> bool;
+    /// the k-th poll attempt of the current dispatch was interrupted by a signal (EINTR)
+    pub uninterp spec fn w_interrupted(&self, k: nat) -> bool;
+    /// Identity stand-in for `poll(timeout)` that carries the number of the attempt as an erased ghost argument (device of
+    /// DESIGN 2.12 for "again only after .."): the wait may be REPEATED only if the previous attempt was interrupted.
+    #[verifier::external_body]
+    pub(crate) fn poll_attempt(&self, Ghost(k): Ghost<nat>, timeout: Option<Duration>) -> (r: crate::Result<Vec<PollEvent>>)
+        requires k == 0 || self.w_interrupted((k - 1) as nat),
+        ensures self.w_polled(timeout),
+                (r matches Err(crate::Error::IoError(e)) && crate::ext::io_kind(e) == std::io::ErrorKind::Interrupted) ==> self.w_interrupted(k),
+    { self.poll(timeout) }
     /// the OS poller behind this Poll (ghost accessor for the pub(crate) field)
     pub closed spec fn pl(&self) -> Poller { *self.poller }
 }
